@@ -45,6 +45,9 @@ func base(syn univ.Syntax, i int) *descriptorpb.FileDescriptorProto {
 		{Name: "m", Type: descriptorpb.FieldDescriptorProto_TYPE_MESSAGE, Label: rep, MapKey: descriptorpb.FieldDescriptorProto_TYPE_STRING},
 		{Name: "r", Type: descriptorpb.FieldDescriptorProto_TYPE_SINT32, Label: rep},
 		{Name: "e", Type: descriptorpb.FieldDescriptorProto_TYPE_ENUM, Label: opt},
+		{Name: "me", Type: descriptorpb.FieldDescriptorProto_TYPE_ENUM, Label: rep, MapKey: descriptorpb.FieldDescriptorProto_TYPE_INT32},
+		{Name: "re", Type: descriptorpb.FieldDescriptorProto_TYPE_ENUM, Label: rep},
+		{Name: "oe", Type: descriptorpb.FieldDescriptorProto_TYPE_ENUM, Label: opt, Oneof: true},
 	}
 	if syn == univ.Proto2 {
 		shapes = append(shapes, univ.Shape{Name: "g", Type: descriptorpb.FieldDescriptorProto_TYPE_GROUP, Label: opt},
@@ -550,7 +553,7 @@ func hostile(fd protoreflect.FieldDescriptor) []protoreflect.Value {
 	switch fd.Kind() {
 	case protoreflect.StringKind:
 		var out []protoreflect.Value
-		for _, s := range []string{"", ".", "a..b", "*", ".x", "x.", "1", "cmd/protoc-gen-go/testdata/x.proto", "proto3", "editions", "\xff"} {
+		for _, s := range []string{"", ".", "a..b", "*", ".x", "x.", "1", "cmd/protoc-gen-go/testdata/x.proto", "proto3", "editions", "\xff", ".verif.nowhere.T", "nowhere.T", ".google.protobuf.Any", ".google.protobuf.NullValue"} {
 			out = append(out, protoreflect.ValueOfString(s))
 		}
 		return out
